@@ -45,7 +45,7 @@ var Checks = map[string]CheckSpec{
 	"C17": {Property: "C17", Level: "fault_enumeration", Custom: "hooks", Profiles: []string{"hooks", "book", "clock", "fixed"}, QuickS: 60, ThoroughS: 600},
 	"C20": {Property: "C20", Level: "exploration", Custom: "cli", QuickS: 75, ThoroughS: 600},
 	"C18": {Property: "C18", Level: "exploration", Profiles: []string{"messages", "general", "messages", "extreme"}, Opts: ExecOpts{Trace: true}, QuickS: 75, ThoroughS: 600},
-	"C19": {Property: "C19", Level: "exploration", Profiles: []string{"concurrent", "general", "vesting"}, Opts: ExecOpts{Trace: true}, QuickS: 75, ThoroughS: 600},
+	"C19": {Property: "C19", Level: "exploration", Profiles: []string{"concurrent", "general", "vesting"}, Opts: ExecOpts{Trace: true, Project: true}, QuickS: 75, ThoroughS: 600},
 }
 
 type Finding struct {
@@ -864,14 +864,14 @@ func hasHookFault(s *Schedule) bool {
 // ---------------------------------------------------------------- determinism self-test
 
 type SelfTestResult struct {
-	Seeds       int      `json:"seeds"`
-	Executions  int      `json:"executions"`
-	Compared    int      `json:"pairs_compared"`
-	Mismatches  int      `json:"mismatches"`
-	GoMaxProcs  []int    `json:"gomaxprocs"`
-	Examples    []string `json:"mismatch_examples,omitempty"`
-	FirstSeed   int64    `json:"first_mismatch_seed,omitempty"`
-	FirstProf   string   `json:"first_mismatch_profile,omitempty"`
+	Seeds      int      `json:"seeds"`
+	Executions int      `json:"executions"`
+	Compared   int      `json:"pairs_compared"`
+	Mismatches int      `json:"mismatches"`
+	GoMaxProcs []int    `json:"gomaxprocs"`
+	Examples   []string `json:"mismatch_examples,omitempty"`
+	FirstSeed  int64    `json:"first_mismatch_seed,omitempty"`
+	FirstProf  string   `json:"first_mismatch_profile,omitempty"`
 }
 
 // SelfTest executes the same seeds in separate OS processes at several
